@@ -753,7 +753,10 @@ class World:
         start_r = day * ts.US_DAY + us
         stop_r = start_r + op["dur_us"]
         step = op["step_us"]
-        if op["dur_us"] == 0:
+        if op["dur_us"] == 0 and (step < 0 or op["stop_as"] != "date"):
+            # a zero-length range is judged when its stop is a date built from the same reading (positive step: empty, or the start
+            # alone when inclusive); with a negative step the library refuses it (direction of a zero duration), and start + timedelta(0)
+            # may differ from start by a microsecond of rounding, which makes the direction of such a range a matter of noise
             return
         # the whole range inside one EOP regime, away from leap seconds, database healthy
         lo, hi = min(start_r, stop_r) - abs(step), max(start_r, stop_r) + abs(step)
@@ -772,7 +775,7 @@ class World:
         if step < 0:
             ctx.probe("range_negative_step")
         try:
-            ra = op.get("reassign")
+            ra = op.get("reassign") if op["dur_us"] != 0 else None
             if ra:
                 # "allow for manipulation of the range before any computation": the range is created with other parameters and its
                 # public attributes are then set to the intended ones
